@@ -536,7 +536,7 @@ fn main() {
     let rounds = if args.thorough { 40 } else { 16 };
     let max_n = if args.thorough { 5 } else { 3 };
 
-    for _round in 0..rounds {
+    for round in 0..rounds {
         // ================= requester under hostile / delayed / duplicated responses =================
         for hostile_level in 0..3u64 {
             let n = rng.range(1, max_n) as usize;
@@ -1102,6 +1102,121 @@ fn main() {
             let txs: Vec<u64> = specs.iter().flat_map(|s| s.txs.clone().unwrap()).collect();
             w.rec.oracle(res.as_ref().is_some_and(|(h, _, ids)| *h == blk.hash && *ids == txs) && !flagged, "repair-derailed-by-signed-variant", || {
                 format!("leader-signed shreds of slice {j} / of the last slice carrying the other last-slice marker (same slice root) were sent by a hostile peer for a {n}-slice block; every request was then answered correctly by an honest peer while outstanding; now {outs} requests are outstanding and the block is not stored (slot flagged: {flagged})")
+            });
+            let c = w.class;
+            w.rec.end_case(c, true);
+        }
+
+        // ================= the slot's leader is flagged as misbehaving before / while a block of that slot is repaired =================
+        // Repaired data is filed per requested block hash precisely so that a block of an equivocating leader that got
+        // certified anyway can still be fetched. The flag is raised (a) by two validly signed conflicting shreds on the
+        // dissemination path, or (b) by the repair path itself: the repair of a sibling block of the slot ends in
+        // InvalidShred (its first slice has no parent / its transactions do not decode). Before the repair starts
+        // (variants 0, 2) or while it is in flight (1, 3). Honest answers must still complete the repair.
+        {
+            let variant = (round % 4) as usize;
+            let n = rng.range(1, max_n) as usize;
+            let slot = rng.range(2, 30);
+            w.begin("repair-flagged-slot");
+            let specs = honest_specs(&mut rng, n, slot, 1);
+            let built: Vec<Built> = specs.iter().map(|s| w.build(slot, s)).collect();
+            let blk = w.declare(slot, built);
+            let bid: BlockId = (Slot::new(slot), blk.hash.clone());
+            // (a) a conflicting validly signed slice j (other content; every third time also the other last-slice marker)
+            let j = rng.below(n as u64) as usize;
+            let mut alt = specs[j].clone();
+            alt.txs = Some(vec![900 + rng.below(9)]);
+            if rng.chance(1, 3) { alt.is_last = !alt.is_last; }
+            let alt_b = w.build(slot, &alt);
+            // (b) a sibling block of the slot whose repair fails in the blockstore
+            let ns = rng.range(1, max_n) as usize;
+            let mut sib_specs = honest_specs(&mut rng, ns, slot, 300);
+            let bad_kind = rng.below(2);
+            if bad_kind == 0 { sib_specs[0].parent = None; } else { sib_specs[rng.below(ns as u64) as usize].txs = None; }
+            let sib_built: Vec<Built> = sib_specs.iter().map(|s| w.build(slot, s)).collect();
+            let sib = w.declare(slot, sib_built);
+            let req_hash = |r: &RepairRequestType| match r { RepairRequestType::LastSliceRoot((_, h)) | RepairRequestType::SliceRoot((_, h), _) | RepairRequestType::Shred((_, h), _, _) => h.clone() };
+            let by_dissemination = variant < 2;
+            let in_flight = variant % 2 == 1;
+            // (a repair needs at least 1 + n + 32 n answers: the flag is raised while the block is incomplete)
+            let flag_after = if in_flight { 1 + rng.below((n * (DATA_SHREDS + 1)) as u64) as usize } else { 0 };
+            let mut incomplete_at_flag = false;
+            let mut flag_done = false;
+            let mut flagged_at_answers: Option<usize> = None;
+            let mut answers = 0usize;
+            if in_flight { w.repair_block(slot, blk.hid, &blk.hash); }
+            let mut guard = 0;
+            loop {
+                guard += 1;
+                if guard > 8 * (n * TOTAL_SHREDS + n + 2) { break; }
+                if !flag_done && answers >= flag_after {
+                    flag_done = true;
+                    if by_dissemination {
+                        // some shreds of the block itself came through dissemination (never 32 of a slice), then the conflict
+                        for _ in 0..rng.below(20) {
+                            let sl = rng.below(n as u64) as usize;
+                            w.dis(slot, &blk.built[sl].shreds[rng.below(TOTAL_SHREDS as u64) as usize]);
+                        }
+                        w.dis(slot, &blk.built[j].shreds[rng.below(TOTAL_SHREDS as u64) as usize]);
+                        w.dis(slot, &alt_b.shreds[rng.below(TOTAL_SHREDS as u64) as usize]);
+                        w.dis(slot, &blk.built[rng.below(n as u64) as usize].shreds[rng.below(TOTAL_SHREDS as u64) as usize]);
+                    } else {
+                        // the sibling's repair, answered correctly by a peer holding it, until the blockstore gives up on it
+                        w.repair_block(slot, sib.hid, &sib.hash);
+                        let mut g2 = 0;
+                        while !w.events.iter().any(|e| e == "invalid") && g2 < 2 * (ns * TOTAL_SHREDS + ns + 2) {
+                            g2 += 1;
+                            let out: Vec<RepairRequestType> = w.outstanding().into_iter().filter(|r| req_hash(r) == sib.hash).collect();
+                            if out.is_empty() { break; }
+                            let req = out[rng.below(out.len() as u64) as usize].clone();
+                            let (op, resp) = correct_response(&w, &sib, &req);
+                            if !w.respond(op, resp, "correct-sibling") { break; }
+                        }
+                    }
+                    if w.events.iter().any(|e| e == "invalid") { flagged_at_answers = Some(answers); }
+                    incomplete_at_flag = !w.rt.block_on(async { w.store.read().await.get_block(&bid).is_some() });
+                    if !in_flight { w.repair_block(slot, blk.hid, &blk.hash); }
+                    continue;
+                }
+                let done = w.rt.block_on(async { w.store.read().await.get_block(&bid).is_some() });
+                let out: Vec<RepairRequestType> = w.outstanding().into_iter().filter(|r| req_hash(r) == blk.hash).collect();
+                if out.is_empty() || done {
+                    if flag_done { break; }
+                    // completed (or stuck) before the flag was due: raise it now, nothing more to answer afterwards
+                    answers = flag_after;
+                    continue;
+                }
+                let req = out[rng.below(out.len() as u64) as usize].clone();
+                let roll = rng.below(100);
+                if roll < 2 {
+                    w.timeout();
+                } else if roll < 4 {
+                    let op = format!("resp nack {}", w.req_str(&req));
+                    if !w.respond(op, RepairResponse::Nack(req.clone()), "nack") { break; }
+                } else {
+                    answers += 1;
+                    let (op, resp) = correct_response(&w, &blk, &req);
+                    if !w.respond(op.clone(), resp, "correct") { break; }
+                    let gone = !w.repair.verif_outstanding().contains(&req);
+                    let rs = w.req_str(&req);
+                    w.rec.oracle(gone, "correct-response-not-accepted", || format!("the correct answer `{op}` to the outstanding request {rs} was not accepted (slot flagged: {})", flagged_at_answers.is_some()));
+                }
+            }
+            let flagged = w.events.iter().any(|e| e == "invalid");
+            w.rec.count(&format!("flagged-slot:{}:flagged={flagged}", ["dissemination-before", "dissemination-in-flight", "sibling-repair-before", "sibling-repair-in-flight"][variant]));
+            let res = w.q_blk(slot, blk.hid, &blk.hash);
+            w.q_blk(slot, sib.hid, &sib.hash);
+            w.rec.count(&format!("flagged-slot:block-incomplete-when-flagged={}", flagged && incomplete_at_flag));
+            let fp = {
+                let mut p = specs[0].parent.unwrap();
+                for s in &specs[1..] { if let Some(q) = s.parent { p = q; } }
+                (Slot::new(p.0), w.parents[p.1].clone())
+            };
+            let txs: Vec<u64> = specs.iter().flat_map(|s| s.txs.clone().unwrap()).collect();
+            let outs = w.outstanding().iter().filter(|r| req_hash(r) == blk.hash).count();
+            let how = if by_dissemination { format!("two validly signed conflicting shreds of slice {j} arrived through dissemination") } else { format!("the repair of a sibling block ({ns} slices, {}) ended in InvalidShred", if bad_kind == 0 { "first slice without parent" } else { "undecodable transactions" }) };
+            w.rec.oracle(res.as_ref().is_some_and(|(h, p, ids)| *h == blk.hash && *p == fp && *ids == txs), "repair-derailed-in-flagged-slot", || {
+                format!("{n}-slice block of slot {slot}: {how} ({}; leader flagged: {flagged}, after {:?} correct answers); every request about the block was answered correctly by an honest peer while outstanding ({answers} answers): the block is not stored, {outs} of its requests outstanding", if in_flight { "while the repair was in flight" } else { "before the repair started" }, flagged_at_answers)
             });
             let c = w.class;
             w.rec.end_case(c, true);
